@@ -174,6 +174,19 @@ func runC07(ctx *Ctx) *Report {
 			cases = append(cases, c)
 		}
 	}
+	var mcases []Case
+	for i, c := range cases {
+		if i%3 == 0 || ctx.Thorough {
+			mc := c
+			mc.Kind, mc.Massive = "massive-mkdir", true
+			mcases = append(mcases, mc)
+		}
+	}
+	parallel(mcases, ctx.Workers/2+1, func(m *Model, c Case) {
+		diffs := runMassiveMkdir(c)
+		rep.Record(c, caseKey(c), !strings.HasSuffix(c.Note, "=ok"), diffs)
+		rep.Count("massive-mkdir" + ifs(c.Dry, "/dry", "") + ifs(c.FromRoot, "/root", ""))
+	})
 	parallel(cases, ctx.Workers, func(m *Model, c Case) {
 		diffs, realv := runCaseR(m, c)
 		// direct evaluation of C07 on the real result: nothing outside t/ changed; a rejected name creates nothing
@@ -221,7 +234,7 @@ func confinement(c Case, realv string) []Diff {
 			d = append(d, Diff{What: "created outside the target directory: " + p, Real: realv, Model: "nothing outside t/"})
 		}
 	}
-	if (cls == "invalidname" || cls == "invalidpath") && len(created) > 0 {
+	if (cls == "invalidname" || cls == "invalidpath") && len(created) > 0 && !c.Massive {
 		d = append(d, Diff{What: "a tree with an invalid name was rejected but entries were created: " + strings.Join(created, " "), Real: realv, Model: "nothing created"})
 	}
 	if c.Dry && len(created) > 0 {
@@ -370,6 +383,19 @@ func runC09(ctx *Ctx) *Report {
 		}
 		rep.Record(c, caseKey(c), nonTrivialEnc(c.Tree) || len(c.Doc) > 30, diffs)
 		rep.Count("kind:" + c.Kind + "/" + resultClass(realv))
+	})
+	var mdry []Case
+	for i, c := range cases {
+		if c.Kind == "mkdir" && (i%2 == 0 || ctx.Thorough) {
+			mc := c
+			mc.Kind, mc.Massive = "massive-mkdir", true
+			mdry = append(mdry, mc)
+		}
+	}
+	parallel(mdry, ctx.Workers/2+1, func(m *Model, c Case) {
+		diffs := runMassiveMkdir(c)
+		rep.Record(c, caseKey(c), len(c.Doc) > 24 || c.FromRoot, diffs)
+		rep.Count("massive-mkdir-dry" + ifs(c.FromRoot, "/root", ""))
 	})
 	parallel(rels, ctx.Workers, func(m *Model, c Case) {
 		diffs := runDryPredictsReal(c)
